@@ -192,7 +192,7 @@ def check_names(ctx, ref: Reference, formulation, user_names: list[str], kind: s
 
 
 # --------------------------------------------------------------------------- ledger classes
-def _request_classes(nodes: list[dict], used_x: list[str], outputs: list[str], couplings: set[str]) -> set[str]:
+def _request_classes(nodes: list[dict], used_x: list[str], outputs: list[str], couplings: set[str], involved: list | None = None) -> set[str]:
     """Failure classes of the coupled-derivative assembly for a request on a graph of (merged) disciplines.
 
     ``nodes``: dicts with "ins", "outs" (sets of names) and "merged" (a strongly coupled group or a self-coupled
@@ -209,6 +209,8 @@ def _request_classes(nodes: list[dict], used_x: list[str], outputs: list[str], c
     dst = [i for i in range(n) if nodes[i]["outs"] & set(outputs)]
     from_in = [any(i == s or reach[s][i] for s in src) for i in range(n)]
     to_out = [any(j == t or reach[j][t] for t in dst) for j in range(n)]
+    if involved is not None:
+        involved.extend(from_in[i] and to_out[i] for i in range(n))
     classes = set()
     # no coupling variable between the design variables and the functions (a merged node on a path brings its strong
     # couplings; a function that is itself a coupling variable counts)
@@ -227,33 +229,48 @@ def _request_classes(nodes: list[dict], used_x: list[str], outputs: list[str], c
     return classes
 
 
-def mdf_request_classes(model: CoupledSystem, used_x: list[str], outputs: list[str]) -> list[str]:
+def mdf_request_classes(model: CoupledSystem, used_x: list[str], outputs: list[str], extra: tuple | None = None) -> list[str]:
     """Ledger classes of an MDF problem: (design variables read by the MDA) x (outputs used as objective / constraints).
 
     MDF differentiates its MDA with respect to every design variable it reads, for the union of the objective and
-    constraint outputs.  The three request classes are evaluated on the true coupling graph; the fourth class holds
-    when they only appear on the graph that gemseo's traversal builds, in which a strongly coupled group (or a
-    self-coupled discipline) is merged into one node whose inputs lose EVERY strong coupling of the system - also
-    those of other groups, i.e. the link from an upstream group.
+    constraint outputs.  The three request classes are evaluated on the true coupling graph; the fourth class is
+    about the graph that gemseo's traversal builds, in which a strongly coupled group (or a self-coupled discipline)
+    is merged into one node whose inputs lose EVERY strong coupling of the system - also those of other groups: it
+    holds when the lost links change the outcome of the traversal (a request class appears, or a differentiated group
+    reads a strong coupling of a group that is not differentiated).
     """
     succ = model.graph()
     groups = [sorted(c) for c in model.sccs()]
     merged = [len(g) > 1 or g[0] in succ[g[0]] for g in groups]
+    inputs_of, outputs_of = list(model.inputs_of), list(model.outputs_of)
+    if extra is not None:  # one more weakly coupled discipline (inputs, outputs) reading existing variables
+        groups.append([len(inputs_of)])
+        merged.append(False)
+        inputs_of.append(list(extra[0]))
+        outputs_of.append(list(extra[1]))
     strong = set()
     for g, m in zip(groups, merged):
         if m:
-            strong |= {n for i in g for n in model.inputs_of[i]} & {n for i in g for n in model.outputs_of[i]}
+            strong |= {n for i in g for n in inputs_of[i]} & {n for i in g for n in outputs_of[i]}
     true_nodes, reduced_nodes = [], []
     for g, m in zip(groups, merged):
-        ins = {n for i in g for n in model.inputs_of[i]}
-        outs = {n for i in g for n in model.outputs_of[i]}
+        ins = {n for i in g for n in inputs_of[i]}
+        outs = {n for i in g for n in outputs_of[i]}
         true_nodes.append({"ins": ins - outs, "outs": outs, "merged": m})
         reduced_nodes.append({"ins": ins - strong if m else ins, "outs": outs, "merged": m})
     couplings = set(model.couplings())
     true = _request_classes(true_nodes, used_x, outputs, couplings)
-    reduced = _request_classes(reduced_nodes, used_x, outputs, couplings)
+    involved: list[bool] = []
+    reduced = _request_classes(reduced_nodes, used_x, outputs, couplings, involved)
     classes = sorted(true)
-    if reduced - true:
+    # a merged group that gemseo differentiates (on a path of the REDUCED graph) is differentiated with respect to every
+    # strong coupling it reads; the group producing that coupling must then be differentiated too
+    n = len(groups)
+    orphan = any(
+        a != b and merged[b] and involved[b] and not involved[a] and strong & true_nodes[a]["outs"] & true_nodes[b]["ins"]
+        for a in range(n) for b in range(n)
+    )
+    if orphan or reduced - true:
         classes.append("mdf_strong_coupling_feeding_another_group")
     return classes
 
@@ -550,8 +567,13 @@ def _case_optimize(p, ctx):
         if n not in [e["name"] for e in entries]:
             entries.append({"name": n, "lo": [p["y_lo"]] * sizes[n], "hi": [p["y_hi"]] * sizes[n]} if n in model.producer else {"name": n, **p["bounds"][n]})
     formulations = ["MDF", "IDF"] + (["DisciplinaryOpt"] if acyclic else [])
+    requested = ["obj"] + ([con["output"]] if con is not None else [])
+    mdf_classes = mdf_request_classes(model, model.x_names, requested, extra=(twin.input_names, ["obj"]))
     results = {}
     for name in formulations:
+        if name == "MDF" and any([ctx.known(c) for c in mdf_classes]):
+            ctx.cls("opt:mdf_skipped_known_finding")
+            continue
         discs = build_disciplines(model, defaults)
         if name == "DisciplinaryOpt":
             discs = [discs[i] for i in topological_order(model)]
@@ -572,11 +594,11 @@ def _case_optimize(p, ctx):
         x_opt = res.x_opt_as_dict
         f_err = abs(float(res.f_opt) - f_ref)
         ctx.check(f_err <= 1e-6, "optimum", f"{name}: optimal objective {float(res.f_opt)!r} differs from the exact optimum {f_ref!r} by {f_err:.3e}",
-                  message=str(res.message), active=active)
+                  status=str(res.message), active=active)
         for n in model.x_names:
             err = float(np.max(np.abs(np.asarray(x_opt[n], dtype=float) - x_ref_d[n])))
             ctx.check(err <= 1e-4, "optimum", f"{name}: optimal {n} = {x_opt[n]} differs from the exact optimum {x_ref_d[n]} by {err:.3e}",
-                      message=str(res.message), active=active)
+                      status=str(res.message), active=active)
         if name == "IDF":
             for n in couplings:
                 err = float(np.max(np.abs(np.asarray(x_opt[n], dtype=float) - sol_ref[n])))
